@@ -588,10 +588,13 @@ def section_helpers(env, ctx, model):
             bad.append("ravel")
         shape = work.shape
         shj = {"nested": [list(s) for s in shape]} if isinstance(work, env.BlockArray) else {"flat": list(shape)}
-        back = S._unravel(env.jnp.array(flat), shape)
         mback = model.call("unravel", v=fs2b(flat), shape=shj)
-        if not (same_container(env, back, container_of(env, mback, flat.dtype)) and same_container(env, back, work)):
-            bad.append("unravel")
+        try:
+            back = S._unravel(env.jnp.array(flat), shape)
+            if not (same_container(env, back, container_of(env, mback, flat.dtype)) and same_container(env, back, work)):
+                bad.append("unravel")
+        except Exception as e:  # noqa: BLE001
+            bad.append(f"unravel raised {type(e).__name__}")
         # model: the vector handed to scipy / the returned container
         fl = model.call("flatten", x0=xj)
         if not np.array_equal(np.array(b2fs(fl["v"])), flat.astype(np.float64)):
@@ -616,6 +619,17 @@ def section_helpers(env, ctx, model):
             ctx.disagree("wrap.helpers", {"section": "helpers", "form": form, "x": xj}, bad, "model", oracle=helper_oracle(env))
 
 
+def _unravel_boundary_oracle(env, r, v, shape):
+    total = int(np.sum([int(np.prod(s)) for s in shape])) if (len(shape) and isinstance(shape[0], tuple)) else int(np.prod(shape))
+    if r[0] == "ok" and total != len(v):
+        return {"call": f"_unravel(array of length {len(v)}, {shape})", "returned": describe(env, r[1]),
+                "expected": "rejected (length differs from the number of scalars of the shape)"}
+    if r[0] == "err" and total == len(v):
+        return {"call": f"_unravel(array of length {len(v)}, {shape})", "outcome": {"err": r[1]},
+                "expected": "the (block) array of that shape: the length is the number of scalars of the shape"}
+    return None
+
+
 def section_helpers_boundary(env, ctx, model):
     """`()` is the 0-d shape, never an empty nested shape; wrong lengths for nested shapes"""
     S, jnp = env.solver, env.jnp
@@ -636,9 +650,7 @@ def section_helpers_boundary(env, ctx, model):
         good = m[0] == r[0] and (m[0] == "err" or same_container(env, r[1], container_of(env, m[1], np.float64)))
         if not good:
             ctx.disagree("wrap.unravel-boundary", {"section": "helpers-boundary", "v": v, "shape": shj}, r[0] if r[0] == "err" else describe(env, r[1]), m[0] if m[0] == "err" else m[1],
-                         oracle=lambda c, r=r, v=v, shape=shape: ({"call": f"_unravel(array of length {len(v)}, {shape})", "returned": describe(env, r[1]),
-                                                                    "expected": "rejected (length differs from the number of scalars of the shape)"}
-                                                                   if (r[0] == "ok" and int(np.sum([int(np.prod(s)) for s in shape]) if (len(shape) and isinstance(shape[0], tuple)) else int(np.prod(shape))) != len(v)) else None))
+                         oracle=lambda c, r=r, v=v, shape=shape: _unravel_boundary_oracle(env, r, v, shape))
 
 
 def helper_oracle(env):
